@@ -893,3 +893,52 @@ twin('C02', 'c02-twin-awake-all-reversed', NOTIF,
 twin('C02', 'c02-twin-list-copy', NOTIF,
      "        awoken = self._waiting.copy()", "        awoken = list(self._waiting)",
      'copy spelled differently')
+
+# ------------------------------------------------------------------------- C17
+CONCEXC = 'usim/_primitives/concurrent_exception.py'
+mutant('C17', 'c17-exclusive-count', CONCEXC,
+       "            return not any(\n                not issubclass(child, cls.specialisations)\n                for child in subclass.specialisations\n            )",
+       "            return len(subclass.specialisations) == len(cls.specialisations)",
+       'B _subclasscheck_specialisation', 'duplicate matches counted: Concurrent[KeyError, LookupError] vs [KeyError, RuntimeError]')
+mutant('C17', 'c17-inclusive-ignored', CONCEXC,
+       "        elif cls.inclusive:\n            # We do not care if ``subclass`` has unmatched specialisations\n            return True\n",
+       "",
+       'B _subclasscheck_specialisation', 'a trailing ... no longer allows extra children')
+mutant('C17', 'c17-any-instead-of-all', CONCEXC,
+       "        matched_specialisations = all(\n            any(",
+       "        matched_specialisations = any(\n            any(",
+       'B _subclasscheck_specialisation', 'one matched type suffices')
+mutant('C17', 'c17-contravariant', CONCEXC,
+       "                issubclass(child, specialisation)\n",
+       "                issubclass(specialisation, child)\n",
+       'B _subclasscheck_specialisation', 'subclasses no longer count')
+mutant('C17', 'c17-key-tuple', CONCEXC,
+       "        unique_spec = frozenset(item)", "        unique_spec = tuple(item)",
+       'N key', 'order and multiplicity distinguish types')
+mutant('C17', 'c17-no-cache-store', CONCEXC,
+       "            cls.__specialisations__[unique_spec] = specialised_cls\n", "",
+       'N miss', 'equal specialisations are different classes')
+mutant('C17', 'c17-unspecialised-rejects', CONCEXC,
+       "                if cls.specialisations is None:\n                    return True",
+       "                if cls.specialisations is None:\n                    return subclass.specialisations is None",
+       'B __subclasscheck__', 'bare Concurrent no longer matches everything')
+mutant('C17', 'c17-new-by-first-child', CONCEXC,
+       "        special_cls = cls[tuple(type(child) for child in children)]",
+       "        special_cls = cls[type(children[0])]",
+       'N Concurrent.__new__', 'type determined by the first child only')
+mutant('C17', 'c17-flatten-drops-nested', CONCEXC,
+       "            if isinstance(child, Concurrent):\n                leafs.extend(child.flattened().children)\n            else:\n                leafs.append(child)",
+       "            if not isinstance(child, Concurrent):\n                leafs.append(child)",
+       'L', 'nested failures are lost')
+mutant('C17', 'c17-instancecheck-identity', CONCEXC,
+       "        return cls.__subclasscheck__(type(instance))",
+       "        return type(instance) is cls",
+       'B __instancecheck__', 'isinstance disagrees with issubclass')
+twin('C17', 'c17-twin-all-form', CONCEXC,
+     "            return not any(\n                not issubclass(child, cls.specialisations)\n                for child in subclass.specialisations\n            )",
+     "            return all(\n                issubclass(child, cls.specialisations)\n                for child in subclass.specialisations\n            )",
+     'not any(not p) <-> all(p)')
+twin('C17', 'c17-twin-reordered-branches', CONCEXC,
+     "        if not matched_specialisations:\n            return False\n        # except MultiError[KeyError, ...]\n        elif cls.inclusive:",
+     "        if cls.inclusive and matched_specialisations:\n            return True\n        elif not matched_specialisations:\n            return False\n        elif cls.inclusive:",
+     'redundant early branch')
